@@ -812,7 +812,7 @@ fn signatures(v: &Verdict, touched: &[Span], n0: usize) -> Vec<(String, &'static
             else if key.ends_with(".emb") || key.ends_with(".vsearch") { push("vec-index-load-failure-swallowed", "vec-unchecked"); }
             else if key.contains(".search.") || key.ends_with(".timeline") {
                 if payload_diff { push("payload-checksum-not-compared", "payload-unchecked"); }
-                else if hit("index", "tantivy") { push("lex-index-open-failure-falls-back-to-empty-index", "lex-unchecked"); }
+                else if hit("index", "tantivy") { push("lex-index-open-failure-falls-back-to-empty-index", "lex-unchecked|lex-swallowed"); }
                 else if hit("index", "sketch") { push("sketch-track-checksum-not-compared", "sketch-unchecked"); }
                 else if hit("toc", "") && p == "rw" { push("toc-corruption-laundered-by-footer-realign", "toc-laundered"); }
                 else if read_errors { push("search-drops-hits-of-unreadable-frames", "search-swallows-read-errors"); }
@@ -884,7 +884,7 @@ fn evaluate(cx: &Ctx, m: &Mutn, got: &Result<BTreeMap<String, String>, String>, 
     for (sig, tag) in &sigs {
         let what = format!("{label} at {}: {} read(s) differ without an error, e.g. {}; verify(deep)={}", mut_offset(m, cx.lay.len), v.differs.len(),
             v.differs.iter().find(|_| true).map(|s| s.chars().take(160).collect::<String>()).unwrap_or_default(), v.verify);
-        if cx.known.contains(sig) && !tag.is_empty() && tags.iter().any(|t| t == tag) { sum.known_finding(sig, &what, case.clone()); }
+        if cx.known.contains(sig) && !tag.is_empty() && tags.iter().any(|t| tag.split('|').any(|x| x == t)) { sum.known_finding(sig, &what, case.clone()); }
         else { sum.oracle_violation(sig, &what, case.clone()); }
     }
     if v.class == "verify-passed-but-differs" {
